@@ -22,7 +22,7 @@ package flood
 // FIFO per neighbour). Then the frames M produced are pumped sequentially through the tail.
 // Oracle (true distances are known by construction: M is d_i, N d_i+1, Q d_i+2, S d_i+3 hops
 // from O_i):
-//   * M sends O_i's announcement on only if d_i <= k-... precisely: not at all if d_i >= k
+//   * M sends O_i's announcement on not at all if d_i >= k
 //     (the next hop would be beyond the limit) — beyond-limit:announcement-forwarded;
 //   * a frame M sends for O_i never states fewer hops than it has really travelled (wire path
 //     shorter than d_i + 1) — concurrent:hop-count-understated;
